@@ -52,6 +52,7 @@ def run(prop, tier):
     vlib.clear_replays(prop, tier)
     open_k = vlib.open_findings("C16")
     deviations = {k["deviation"] for k in open_k if k.get("deviation")}
+    dev_to_k = {k["deviation"]: k for k in open_k if k.get("deviation")}
     maxcalls = 3
     seqs, mr = model(tag, maxcalls, deviations)
     states, distinct = mr["states"], mr["distinct"]
@@ -125,6 +126,10 @@ def run(prop, tier):
         if key in seen:
             continue
         seen.add(key)
+        if jd.get("class", "NEW") in dev_to_k:
+            kf = dev_to_k[jd["class"]]
+            known_hits.append((kf["id"], kf["what"]))
+            continue
         payload = {"property": prop, "project": PROJECT_TS, "configuration": cfgname, "calls": hist or [ln.get("p")],
                    "complaint": jd["kind"], "about": jd["name"], "last_call": ln.get("_json"),
                    "how_to_rerun": f"bin/check {prop} --replay <this file>"}
